@@ -297,9 +297,13 @@ static void dumpNode(const DOMNode* n, std::string& o) {
         for (XMLSize_t i = 0; m && i < m->getLength(); i++) es.push_back(esc(m->item(i)->getNodeName()));
         std::sort(es.begin(), es.end());
         for (auto& x : es) o += " &" + x;
-        Fnv f; f.add(esc(d->getInternalSubset()));
-        char b[24]; snprintf(b, sizeof b, " is=%08x", (unsigned)(f.h & 0xffffffff));
-        o += b; o += ">";
+        std::vector<std::string> ns;
+        DOMNamedNodeMap* nm = d->getNotations();
+        for (XMLSize_t i = 0; nm && i < nm->getLength(); i++) ns.push_back(esc(nm->item(i)->getNodeName()));
+        std::sort(ns.begin(), ns.end());
+        for (auto& x : ns) o += " !" + x;
+        // the internal subset as the parser re-serialised it (DOMDocumentType::getInternalSubset), in full
+        o += " is=[" + esc(d->getInternalSubset()) + "]>";
         break;
     }
     case DOMNode::DOCUMENT_NODE: {
